@@ -334,8 +334,10 @@ func (s *SimStream) SetReadDeadline(t time.Time) error {
 func (s *SimStream) SetWriteDeadline(t time.Time) error { return nil }
 func (s *SimStream) SetDeadline(t time.Time) error      { return s.SetReadDeadline(t) }
 
-// Close implements stream.Stream.
+// Close implements stream.Stream. Closing is a scheduling point (a slow Close), armed
+// only by worlds that list "harness/stream-close".
 func (s *SimStream) Close() error {
+	s.N.S.Yield("harness/stream-close", s.Name)
 	s.mu.Lock()
 	s.Closed = true
 	s.mu.Unlock()
